@@ -3,6 +3,7 @@
 package omniwitness
 
 import (
+	"sort"
 	"context"
 	_ "embed"
 	"encoding/json"
@@ -65,9 +66,18 @@ func checkConfig(doc []byte) ([]string, error) {
 	if err != nil {
 		return nil, fmt.Errorf("AsLogMap: %v", err)
 	}
+	// the URLs as written in the file, read without the loader's own types
+	var rawDoc struct {
+		Logs []struct {
+			URL string `yaml:"URL"`
+		} `yaml:"Logs"`
+	}
+	if err := yaml.Unmarshal(doc, &rawDoc); err != nil || len(rawDoc.Logs) != len(logCfg.Logs) {
+		return nil, fmt.Errorf("harness: schema-less decode of the configuration: %v (%d entries vs %d)", err, len(rawDoc.Logs), len(logCfg.Logs))
+	}
 	var classes []string
 	ids := map[string]string{}
-	for _, l := range logCfg.Logs {
+	for li, l := range logCfg.Logs {
 		lc, err := config.NewLog(l.Origin, l.PublicKey, l.URL)
 		if err != nil {
 			return classes, fmt.Errorf("entry %q: public key does not parse into a verifier: %v", l.Origin, err)
@@ -132,6 +142,19 @@ func checkConfig(doc []byte) ([]string, error) {
 		}
 		if len(rt.reqs) == 0 {
 			return classes, fmt.Errorf("entry %q: feeder gave up before making any request (its URL %q cannot be started from): %v", l.Origin, l.URL, ferr)
+		}
+		// every request stays inside the directory of the URL as written in the file
+		// (RFC 3986 resolution: up to and including its last slash)
+		if ru, rerr := url.Parse(strings.TrimSpace(rawDoc.Logs[li].URL)); rerr == nil {
+			dir := ru.Path[:strings.LastIndex(ru.Path, "/")+1]
+			if dir == "" {
+				dir = "/"
+			}
+			for _, r := range rt.reqs {
+				if !strings.EqualFold(r.Host, ru.Host) || !strings.HasPrefix(r.Path, dir) {
+					return classes, fmt.Errorf("entry %q: the file gives URL %q but the feeder requested %q, outside %s%s", l.Origin, rawDoc.Logs[li].URL, r.String(), ru.Host, dir)
+				}
+			}
 		}
 		for _, r := range rt.reqs {
 			if (r.Scheme != "http" && r.Scheme != "https") || r.Host != u.Host {
@@ -271,6 +294,112 @@ func startMain(doc []byte) error {
 	}
 }
 
+// startMainPolling runs the real Main on the configuration with polling enabled against
+// a network that refuses (and records) everything: every entry with a feeder must get a
+// feeder that works from THAT entry's URL — the witness map and the feeder list describe
+// the same logs — and Main must stay up while the network is down.
+func startMainPolling(doc []byte) error {
+	configMu.Lock()
+	defer configMu.Unlock()
+	saved := ConfigLogs
+	ConfigLogs = doc
+	defer func() { ConfigLogs = saved }()
+	var rawDoc struct {
+		Logs []struct {
+			Origin string `yaml:"Origin"`
+			URL    string `yaml:"URL"`
+			Feeder string `yaml:"Feeder"`
+		} `yaml:"Logs"`
+	}
+	if err := yaml.Unmarshal(doc, &rawDoc); err != nil {
+		return fmt.Errorf("harness: %v", err)
+	}
+	ln, err := net.Listen("tcp", "127.0.0.1:0")
+	if err != nil {
+		return fmt.Errorf("harness: %v", err)
+	}
+	rt := &refusingTransport{}
+	wk := vlib.NewKey("witness.example/w", "wit")
+	ctx, cancel := context.WithCancel(context.Background())
+	done := make(chan error, 1)
+	go func() {
+		defer func() {
+			if p := recover(); p != nil {
+				done <- fmt.Errorf("panic: %v", p)
+			}
+		}()
+		done <- Main(ctx, OperatorConfig{WitnessKeys: []note.Signer{wk.Signer(), wk.CosigSigner()}, WitnessVerifier: vlib.WitnessKey{K: wk, Kind: vlib.WKCosig}.Verifier(), FeedInterval: 200 * time.Millisecond},
+			inmemory.NewPersistence(), ln, &http.Client{Transport: rt})
+	}()
+	defer func() {
+		cancel()
+		select {
+		case <-done:
+		case <-time.After(20 * time.Second):
+		}
+		ln.Close()
+	}()
+	deadline := time.Now().Add(30 * time.Second)
+	for {
+		select {
+		case err := <-done:
+			return fmt.Errorf("Main with polling enabled stopped although only the network is down: %v", err)
+		default:
+		}
+		rt.mu.Lock()
+		reqs := append([]*url.URL{}, rt.reqs...)
+		rt.mu.Unlock()
+		var missing []string
+		for _, l := range rawDoc.Logs {
+			if strings.EqualFold(strings.TrimSpace(l.Feeder), "none") {
+				continue
+			}
+			ru, perr := url.Parse(strings.TrimSpace(l.URL))
+			if perr != nil {
+				return fmt.Errorf("harness: URL %q: %v", l.URL, perr)
+			}
+			dir := ru.Path[:strings.LastIndex(ru.Path, "/")+1]
+			if dir == "" {
+				dir = "/"
+			}
+			seen := false
+			for _, r := range reqs {
+				if strings.EqualFold(r.Host, ru.Host) && strings.HasPrefix(r.Path, dir) {
+					seen = true
+				}
+			}
+			if !seen {
+				missing = append(missing, fmt.Sprintf("%q (%s, %s)", l.Origin, l.Feeder, l.URL))
+			}
+		}
+		if len(missing) == 0 {
+			return nil
+		}
+		if time.Now().After(deadline) {
+			var got []string
+			for _, r := range reqs {
+				got = append(got, r.String())
+			}
+			sort.Strings(got)
+			return fmt.Errorf("30s (150 poll intervals) after Main started with polling enabled no request has been made from the URL of %v; requests seen: %v", missing, uniq(got))
+		}
+		time.Sleep(50 * time.Millisecond)
+	}
+}
+
+func uniq(s []string) []string {
+	var out []string
+	for i, x := range s {
+		if i == 0 || x != s[i-1] {
+			out = append(out, x)
+		}
+	}
+	if len(out) > 40 {
+		out = out[:40]
+	}
+	return out
+}
+
 func TestC17(t *testing.T) {
 	st := vlib.StatsFor("C17", "shipped", "exhaustive: every entry of omniwitness/logs.yaml and logs_test.yaml as found in the working tree goes through the loader functions Main uses and one feeder cycle against a refusing network; non-trivial = an entry with a feeder (URL actually started from); distinct by origin")
 	sm := vlib.StatsFor("C17", "loader-mutations", "sensitivity of the oracle: each entry x 8 configuration defects must be rejected by the same oracle; non-trivial = any")
@@ -292,6 +421,10 @@ func TestC17(t *testing.T) {
 			// and the assembled service itself must come up with it
 			err = startMain(f.doc)
 			st.Record(f.name+"/Main", true, []string{"main-starts:" + f.name}, map[string]any{"file": f.name, "check": "omniwitness.Main starts serving"})
+		}
+		if err == nil {
+			err = startMainPolling(f.doc)
+			st.Record(f.name+"/Main-polling", true, []string{"main-polls-every-entry:" + f.name}, map[string]any{"file": f.name, "check": "omniwitness.Main with polling: a request from the URL of every entry that has a feeder"})
 		}
 		if err != nil {
 			c := cfgMutation{File: f.name, Kind: "as-shipped"}
